@@ -29,10 +29,10 @@ def plan(tier, ctx):
         d = ['NF=%d' % nf] + ['A%d=%d' % (i + 2, a) for i, a in enumerate(acts)]
         return fvm.config('C04', name, 'join.c', nf, 4, 'sc', srcs=src, defines=d, spec=_spec(nf), bounds='target + ' + name, timeout=kw.pop('timeout', 1200), **kw)
     j += cfg('join', [J])
-    j += cfg('tryjoin', [Y], timeout=2400, required=False)
     j += cfg('detach', [D])
-    j += cfg('join_detach', [J, D], timeout=2400, required=False)
     if tier == 'thorough':
+        j += cfg('tryjoin', [Y], timeout=3000, required=False)
+        j += cfg('join_detach', [J, D], timeout=3000, required=False)
         j += cfg('join_join', [J, J], timeout=3000, required=False)
         j += cfg('join_tryjoin', [J, Y], timeout=3000, required=False)
         j += cfg('tryjoin_detach', [Y, D], timeout=3000, required=False)
